@@ -836,7 +836,8 @@ class ktensor:
         other_tensor = other
 
         self.normalize()
-        other_tensor = other_tensor.normalize()
+        # Work on a copy, the reference tensor is not ours to modify
+        other_tensor = other_tensor.copy().normalize()
 
         N = self.ndims
         RA = self.ncomponents
